@@ -4,7 +4,7 @@
    a sample of every run (the in-kernel sample), so the extraction itself is checked. *)
 From Coq Require Import List Ascii String Bool Arith NArith ZArith.
 Require Import Show.
-Require V1 V5 V6 V3 V11 A1 D3 M6 M6b GS R2 AR AR2 AR3.
+Require V1 V5 V6 V3 V11 A1 D3 M6 M6b GS R2 AR AR2 AR3 CL.
 Import ListNotations.
 Open Scope string_scope.
 Open Scope list_scope.
@@ -201,10 +201,50 @@ Definition run_ar (op : string) (a : list str) : option str :=
           end)
   else None.
 
+(* ---- changelog: C17 ---- *)
+(* byte-wise lexicographic order, for printing the options map sorted by key *)
+Fixpoint str_ltb (a b : str) : bool :=
+  match a, b with
+  | _, [] => false
+  | [], _ :: _ => true
+  | x :: a', y :: b' => (N_of_ascii x <? N_of_ascii y)%N || ((N_of_ascii x =? N_of_ascii y)%N && str_ltb a' b')
+  end.
+Fixpoint ins_pair (kv : str * str) (l : list (str * str)) : list (str * str) :=
+  match l with
+  | [] => [kv]
+  | h :: t => if D3.seq (fst kv) (fst h) then kv :: t          (* a later duplicate replaces the earlier one *)
+              else if str_ltb (fst kv) (fst h) then kv :: l else h :: ins_pair kv t
+  end.
+Definition sort_args (l : list (str * str)) : list (str * str) := fold_left (fun acc kv => ins_pair kv acc) l [].
+Fixpoint table_of (a : list str) : list (str * str) :=
+  match a with k :: v :: r => (k, v) :: table_of r | _ => [] end.
+Definition date_oracle (tbl : list (str * str)) (x : str) : option str :=
+  match find (fun kv => D3.seq (fst kv) x) tbl with
+  | Some (_, v) => if D3.seq v (lit "err") then None else Some v
+  | None => None
+  end.
+Definition show_centry (e : CL.entry V3.version str) : str :=
+  unwords [lit "("; hx (CL.e_source _ _ e); show_v3 (CL.e_version _ _ e); hx (CL.e_target _ _ e);
+           show_list (fun kv => lit "( " ++ hx (fst kv) ++ sp1 ++ hx (snd kv) ++ lit " )") (sort_args (CL.e_args _ _ e));
+           hx (CL.e_body _ _ e); hx (CL.e_by _ _ e); CL.e_when _ _ e; lit ")"].
+(* the text handed to time.Parse for a trailer line *)
+Definition when_of (l : str) : str :=
+  let (_, so) := CL.partition (CL.lf l) (lit "--") in let (_, w) := CL.partition so (lit "  ") in CL.ctrim w.
+Definition run_changelog (op : string) (a : list str) : option str :=
+  let g n := nth_arg n a in
+  if op =? "cldates" then
+    Some (show_list hx (map when_of (filter (fun l => CL.is_prefix (lit " -- ") l) (GS.lines_of (g 0)))))
+  else if op =? "clparse" then
+    Some (match CL.parse V3.version str V11.parse_u (date_oracle (table_of (tl a))) (g 0) with
+          | Some es => lit "ok " ++ show_list show_centry es
+          | None => lit "err" end)
+  else None.
+
 Definition run (op : string) (hexargs : list str) : str :=
   let a := map unhex hexargs in
   match run_version op a with Some r => r | None =>
   match run_dep op a with Some r => r | None =>
   match run_deb822 op a with Some r => r | None =>
   match run_ar op a with Some r => r | None =>
-  lit "unknown-op" end end end end.
+  match run_changelog op a with Some r => r | None =>
+  lit "unknown-op" end end end end end.
